@@ -15,7 +15,8 @@
 EXTENDS MosMerge, TLC
 
 StatusOk(ev) == ev.status = "ok"
-Crashed(ev)  == ev.status \notin {"ok", "merge_error", "completed_error"}
+(* "unclassified": MosFile.from_string refused the message with one of the library's own exceptions (C08's business) *)
+Crashed(ev)  == ev.status \notin {"ok", "merge_error", "completed_error", "unclassified"}
 
 (* A running order that holds a story whose storyID is blank, addressed   *)
 (* by a message with a blank story reference: whether the blank reference *)
